@@ -48,6 +48,67 @@ theorem ows_fieldByte {b : UInt8} (h : isOws b = true) : isFieldByte b = true :=
 theorem not_mem_of_all {p : UInt8 → Bool} {c : UInt8} {l : Bytes} (h : l.all p = true) (hc : p c = false) : c ∉ l := by
   intro hm; have := List.all_eq_true.mp h c hm; rw [hc] at this; exact absurd this (by simp)
 
+/-! ### `trim_ascii_ws` on field bytes is OWS trimming -/
+
+theorem asciiWs_facts : ∀ b, (!isFieldByte b || (isAsciiWs b == isOws b)) = true :=
+  forall_uint8 _ (by decide +kernel)
+
+theorem asciiWs_eq_ows {b : UInt8} (h : isFieldByte b = true) : isAsciiWs b = isOws b := by
+  have := asciiWs_facts b; simp [h] at this; exact this
+
+theorem dropWhile_congr_mem {α} (p q : α → Bool) : ∀ (l : List α), (∀ x ∈ l, p x = q x) → l.dropWhile p = l.dropWhile q
+  | [], _ => rfl
+  | a :: r, h => by
+    simp only [List.dropWhile_cons, h a (by simp)]
+    cases q a with
+    | true => simp only [if_true]; exact dropWhile_congr_mem p q r (fun x hx => h x (by simp [hx]))
+    | false => rfl
+
+theorem trimAscii_eq_trimOws (x : Bytes) (h : x.all isFieldByte = true) : trimAscii x = trimOws x := by
+  unfold trimAscii trimOws
+  have hmem : ∀ b ∈ x, isAsciiWs b = isOws b := fun b hb => asciiWs_eq_ows (List.all_eq_true.mp h b hb)
+  rw [dropWhile_congr_mem _ _ x hmem]
+  congr 1
+  apply dropWhile_congr_mem
+  intro b hb
+  have : b ∈ x.dropWhile isOws := List.mem_reverse.mp hb
+  exact hmem b ((List.dropWhile_suffix _).subset this)
+
+theorem dropWhile_ows_append (o v : Bytes) (ho : o.all isOws = true)
+    (hv : ∀ b, v.head? = some b → isOws b = false) : (o ++ v).dropWhile isOws = v := by
+  induction o with
+  | nil =>
+    cases v with
+    | nil => rfl
+    | cons b r => simp [List.dropWhile_cons, hv b rfl]
+  | cons a o ih =>
+    simp at ho
+    simp only [List.cons_append, List.dropWhile_cons, ho.1, if_true]
+    exact ih (by simpa using ho.2)
+
+/-- OWS trimming of `OWS value OWS` is the value when its ends are not OWS -/
+theorem trimOws_ows_value (o1 v o2 : Bytes) (h1 : o1.all isOws = true) (h2 : o2.all isOws = true)
+    (hh : ∀ b, v.head? = some b → isOws b = false) (hl : ∀ b, v.getLast? = some b → isOws b = false) :
+    trimOws (o1 ++ v ++ o2) = v := by
+  unfold trimOws
+  by_cases hv : v = []
+  · subst hv
+    have : ((o1 ++ [] ++ o2).dropWhile isOws) = [] := by
+      have := dropWhile_ows_append (o1 ++ o2) [] (by simp [h1, h2]) (by simp)
+      simpa using this
+    rw [this]; rfl
+  · have e1 : (o1 ++ v ++ o2).dropWhile isOws = v ++ o2 := by
+      rw [List.append_assoc]
+      apply dropWhile_ows_append _ _ h1
+      intro b hb
+      cases v with
+      | nil => exact absurd rfl hv
+      | cons x r => simp at hb; subst hb; exact hh x rfl
+    rw [e1, List.reverse_append]
+    have e2 := dropWhile_ows_append o2.reverse v.reverse (by simpa using h2)
+      (by intro b hb; apply hl; simpa [List.head?_reverse] using hb)
+    rw [e2]; simp
+
 /-! ### field lines -/
 
 theorem token_vchars {n : Bytes} (h : Token n) : n.all isVchar = true := by
@@ -112,8 +173,14 @@ theorem fieldValue_ends (v : Bytes) (h : FieldValue v) :
     simp [hb'] at hl
     exact fieldByte_not_ws1 hf hl
 
-theorem parseHeaderLine_field (f : Field) (pos : Nat) (h : FieldWF f)
-    (hu : KF.C05.fieldUSpace f = false) :
+theorem fieldValue_ends_ows (v : Bytes) (h : FieldValue v) :
+    (∀ b, v.head? = some b → isOws b = false) ∧ (∀ b, v.getLast? = some b → isOws b = false) := by
+  obtain ⟨_, hh, hl, _⟩ := h
+  constructor
+  · intro b hb; simp [hb] at hh; exact hh
+  · intro b hb; simp [hb] at hl; exact hl
+
+theorem parseHeaderLine_field (f : Field) (pos : Nat) (h : FieldWF f) :
     parseHeaderLine (fieldLine f) pos = some (hdrOf (f, pos)) := by
   obtain ⟨ht, h1, h2, hv, _⟩ := h
   unfold parseHeaderLine fieldLine
@@ -123,20 +190,22 @@ theorem parseHeaderLine_field (f : Field) (pos : Nat) (h : FieldWF f)
   rw [trim_vchars _ (token_vchars ht)]
   have hne : f.name.isEmpty = false := by simp [List.isEmpty_iff, ht.1]
   simp only [hne, Bool.false_eq_true, if_false]
-  unfold KF.C05.fieldUSpace at hu
-  simp only [Bool.or_eq_false_iff] at hu
-  obtain ⟨hh, hl⟩ := fieldValue_ends _ hv
-  rw [trim_ows_value _ _ _ h1 h2 hh hl hu.1 hu.2]
+  have hfb : (f.ows1 ++ f.value ++ f.ows2).all isFieldByte = true := by
+    simp only [List.all_append, Bool.and_eq_true]
+    refine ⟨⟨?_, hv.1⟩, ?_⟩
+    · rw [List.all_eq_true]; intro b hb; exact ows_fieldByte (List.all_eq_true.mp h1 b hb)
+    · rw [List.all_eq_true]; intro b hb; exact ows_fieldByte (List.all_eq_true.mp h2 b hb)
+  obtain ⟨hh, hl⟩ := fieldValue_ends_ows _ hv
+  rw [trimAscii_eq_trimOws _ hfb, trimOws_ows_value _ _ _ h1 h2 hh hl]
   rfl
 
 theorem parseHeaderLines_fields : ∀ (fs : List Field) (n : Nat), (∀ f ∈ fs, FieldWF f) →
-    (∀ f ∈ fs, KF.C05.fieldUSpace f = false) →
     parseHeaderLines (fs.map fieldLine) n = (fs.zipIdx n).map hdrOf
-  | [], _, _, _ => by simp [parseHeaderLines]
-  | f :: fs, n, h, hu => by
+  | [], _, _ => by simp [parseHeaderLines]
+  | f :: fs, n, h => by
     simp only [List.map_cons, parseHeaderLines, List.zipIdx_cons]
-    rw [parseHeaderLine_field f n (h f (by simp)) (hu f (by simp)),
-      parseHeaderLines_fields fs (n + 1) (fun x hx => h x (by simp [hx])) (fun x hx => hu x (by simp [hx]))]
+    rw [parseHeaderLine_field f n (h f (by simp)),
+      parseHeaderLines_fields fs (n + 1) (fun x hx => h x (by simp [hx]))]
 
 theorem takeWhile_all {α} (p : α → Bool) (l : List α) (h : ∀ x ∈ l, p x = true) : l.takeWhile p = l := by
   induction l with
@@ -144,7 +213,7 @@ theorem takeWhile_all {α} (p : α → Bool) (l : List α) (h : ∀ x ∈ l, p x
   | cons a r ih => simp [List.takeWhile_cons, h a (by simp), ih (fun x hx => h x (by simp [hx]))]
 
 theorem parseHeaders_fields (fs : List Field) (hn : fs.length ≤ maxFields)
-    (h : ∀ f ∈ fs, FieldWF f) (hu : ∀ f ∈ fs, KF.C05.fieldUSpace f = false) :
+    (h : ∀ f ∈ fs, FieldWF f) :
     ∃ info, parseHeaders (fs.map fieldLine) = .ok ((fs.zipIdx 0).map hdrOf, info) := by
   unfold parseHeaders
   have h1 : ¬ (fs.map fieldLine).length > HttpLists.maxHeaders := by
@@ -165,7 +234,7 @@ theorem parseHeaders_fields (fs : List Field) (hn : fs.length ≤ maxFields)
     simp; omega
   have h4 : HttpLists.strictParsing = false := rfl
   simp only [h3, h4, Bool.false_eq_true, if_false, Bool.false_and]
-  rw [parseHeaderLines_fields fs 0 h hu]
+  rw [parseHeaderLines_fields fs 0 h]
   exact ⟨_, rfl⟩
 
 end Huginn.Http1
